@@ -484,8 +484,18 @@ func checkLogsProbe(c *Ctx, rule string) {
 		call, ok := v.(*ssa.Call)
 		return ok && staticCallee(call) == enc && want(call.Call.Args[0])
 	}
-	isStart := func(v ssa.Value) bool { return v == ssa.Value(pStart) }
+	isStart := func(v ssa.Value) bool {
+		if v == ssa.Value(pStart) {
+			return true
+		}
+		u := deepUnfold(cv(v)) // want.first() with want = span{start, limit}
+		return u.top() && u.v == ssa.Value(pStart)
+	}
+	probeAff := &affEnv{}
 	isLast := func(v ssa.Value) bool { // start+limit-1
+		if linEq(affOfC(probeAff, cv(v), 0), probeAff.Of(pStart).add(probeAff.Of(pLimit)).sub(konst(1))) {
+			return true
+		}
 		var terms []ssa.Value
 		var k int64
 		var flat func(v ssa.Value, sign int64) bool
